@@ -84,7 +84,8 @@ def gen_reconnect(tier, rng):
                     cbs = dict(allret)
                     if not with_rc:
                         del cbs["on_reconnect"]
-                    yield {"callbacks": cbs, "attempts": atts, "reconnect": R}
+                    # the interval given as run_forever(reconnect=R), or (every 7th history) through websocket.setReconnect(R)
+                    yield {"callbacks": cbs, "attempts": atts, "reconnect": R, "reconnect_via_setter": (sum(seq) + k) % 7 == 0}
     # long outages: hundreds of consecutive failures (no bound on their number), then the server is back
     for n, kind in ((400, "refuse"), (700, "mixed"), (1100 if tier == "quick" else 3000, "lost")):
         fails = {"refuse": [{"refuse": True}], "mixed": [{"refuse": True}, {"status": 503}, {"evs": [("BC",)]}],
@@ -421,14 +422,14 @@ def bursts(ctx, T):
     from sim.sock import server_frame
     burst = server_frame(1, b"one") + server_frame(9, b"p") + server_frame(2, b"\x02", fin=0) + server_frame(0, b"\x03") + server_frame(10, b"o") + server_frame(1, b"last")
     for tls, scheme in ((False, "ws"), (False, "wss"), (True, "wss")):      # TLS-pending bytes only exist on wss
-        for _ in (0,):
+        for prepared in (False, True):       # the library's own connection, or a connected (TLS) socket handed over via socket=
             sim = {"scheme": scheme, "callbacks": {c: "ret" for c in CBS}, "attempts": [{"events": [[1.0, "D", burst.hex()], [60.0, "D", server_frame(8, b"").hex()]], "tls": tls}],
-                   "args": {}, "closer": [], "runs": 1}
+                   "args": {}, "closer": [], "runs": 1, "prepared": prepared}
             res = run_app(sim)
             times = [ev[0] for ev in res["trace"] if ev[1] in ("data", "message", "ping", "pong")]
-            T.case(("burst", tls, scheme), bucket="burst", sample={"scheme": scheme, "tls_pending": tls, "times": times})
+            T.case(("burst", tls, scheme, prepared), bucket="burst", sample={"scheme": scheme, "tls_pending": tls, "prepared_socket": prepared, "times": times})
             if len(times) != 8 or any(abs(t - 1.0) > 1e-9 for t in times):
-                T.fail("spec", {"kind": "burst", "scheme": scheme, "tls_pending": tls}, "8 callbacks, all at t=1.0", str(times),
+                T.fail("spec", {"kind": "burst", "scheme": scheme, "tls_pending": tls, "prepared_socket": prepared}, "8 callbacks, all at t=1.0", str(times),
                        {"site": "dispatcher", "cls": "late-delivery", "tls": tls},
                        what="frames that arrived in one segment were not all delivered at once")
 
